@@ -43,6 +43,7 @@ type vfC04Case struct {
 	Order     []int      `json:"completion_order"` // indices into the async list
 	During    []int      `json:"dups_during"`
 	After     []int      `json:"dups_after"`
+	QWait     bool       `json:"queued_behind_busy_worker"` // the message waits in the validation queue (worker parked in validator 0) while a message of ANOTHER topic is pushed
 	QFull     int        `json:"validation_queue_full"` // > 0: queue of that size, its worker parked (in validator 0, inline) and the queue filled before the message arrives
 }
 
@@ -115,13 +116,16 @@ func vfC04Run(t *testing.T, c vfC04Case) (obs vfC04Obs) {
 		mk := func(i int) ValidatorEx {
 			releases[i] = make(chan struct{})
 			return func(vctx context.Context, _ peer.ID, m *Message) ValidationResult {
-				if d := string(m.Data); d == "Q" || strings.HasPrefix(d, "F") {
-					// the message that keeps the only worker busy, and the fillers of the validation queue
-					if d == "Q" && i == 0 && c.QFull > 0 {
+				if d := string(m.Data); d == "Q" || d == "U" || strings.HasPrefix(d, "F") {
+					// the message that keeps the only worker busy, the fillers of the validation queue, the message of the other topic
+					if d == "Q" && i == 0 && (c.QFull > 0 || c.QWait) {
 						select {
 						case <-qRelease:
 						case <-ctx.Done():
 						}
+					}
+					if i == 0 && (d == "Q" || d == "U") {
+						return ValidationReject // rejected inline: these never reach the asynchronous stage, so they take no throttle
 					}
 					return ValidationAccept
 				}
@@ -182,6 +186,15 @@ func vfC04Run(t *testing.T, c vfC04Case) (obs vfC04Obs) {
 		if err != nil {
 			t.Fatal(err)
 		}
+		// a second topic with a validator of its own that accepts everything
+		if err := ps.RegisterTopicValidator("u", func(context.Context, peer.ID, *Message) ValidationResult { return ValidationAccept }, WithValidatorInline(true)); err != nil {
+			t.Fatal(err)
+		}
+		if tu, err := ps.Join("u"); err == nil {
+			if su, err := tu.Subscribe(); err == nil {
+				defer su.Cancel()
+			}
+		}
 		sub, err := topic.Subscribe()
 		if err != nil {
 			t.Fatal(err)
@@ -207,12 +220,13 @@ func vfC04Run(t *testing.T, c vfC04Case) (obs vfC04Obs) {
 			}
 		})
 		tt := "t"
-		recv := func(data string, from int) {
+		recvT := func(data string, tn string, from int) {
 			vfEval(ps, func() {
-				ps.handleIncomingRPC(&RPC{RPC: pb.RPC{Publish: []*pb.Message{{Data: []byte(data), Topic: &tt}}}, from: fake[from]})
+				ps.handleIncomingRPC(&RPC{RPC: pb.RPC{Publish: []*pb.Message{{Data: []byte(data), Topic: &tn}}}, from: fake[from]})
 			})
 			synctest.Wait()
 		}
+		recv := func(data string, from int) { recvT(data, tt, from) }
 		if c.Blocker {
 			recv("B", 9)
 		}
@@ -234,11 +248,30 @@ func vfC04Run(t *testing.T, c vfC04Case) (obs vfC04Obs) {
 			obs.PubErr = err != nil
 			synctest.Wait()
 		} else {
+			if c.QWait {
+				recv("Q", 9) // the worker parks in validator 0
+			}
 			recv("M", 0)
+			duringDone := false
+			if c.QWait {
+				// M waits in the queue with the validators that apply to IT; copies from other peers queue up behind it (they are
+				// duplicates by the time the worker gets to them) and a message of the other topic is pushed meanwhile
+				for _, p := range c.During {
+					recv("M", p)
+					obs.During = append(obs.During, p)
+				}
+				duringDone = true
+				recvT("U", "u", 9)
+				close(qRelease)
+				synctest.Wait()
+			}
 			mu.Lock()
 			parked := reason == 0 && !obs.Delivered
 			mu.Unlock()
 			for _, p := range c.During {
+				if duringDone {
+					break
+				}
 				recv("M", p)
 				if parked {
 					obs.During = append(obs.During, p)
@@ -371,6 +404,24 @@ func TestVF_C04(t *testing.T) {
 			}
 		}
 	}
+	// a message that waits in the validation queue while a message of another topic is pushed: one to three accepting default
+	// validators followed by a topic validator that does not accept, inline or asynchronous
+	for ndef := 1; ndef <= 3; ndef++ {
+		for _, res := range []string{"Rej", "Ign", "Other"} {
+			for _, inl := range []bool{true, false} {
+				c := vfC04Case{GlobalCap: 8, QWait: true, During: []int{1}, After: []int{2}}
+				for k := 0; k < ndef; k++ {
+					c.Vals = append(c.Vals, vfC04Val{Res: "Acc", Inline: true})
+				}
+				c.Vals = append(c.Vals, vfC04Val{Res: res, Inline: inl, Topic: true, Raw: -1})
+				if !inl {
+					c.Order = []int{0}
+				}
+				emit(c)
+				nexh++
+			}
+		}
+	}
 	cs.extra["exhaustive_cases"] = nexh
 	cs.extra["exhaustive_max_validators"] = nmax
 	// random: up to 4 validators, completion orders, throttles, duplicates
@@ -391,7 +442,21 @@ func TestVF_C04(t *testing.T) {
 			c.Vals = append(c.Vals, v)
 			cs.kind(r)
 		}
-		if !c.Local && rng.Intn(8) == 0 {
+		if !c.Local && !c.Blocker && rng.Intn(5) == 0 {
+			c.QWait = true
+			c.Vals[0].Inline, c.Vals[0].Res, c.Vals[0].Topic = true, "Acc", n == 1 && c.Vals[0].Topic
+			nas = 0
+			for _, v := range c.Vals {
+				if !v.Inline {
+					nas++
+				}
+			}
+			for j := rng.Intn(3); j > 0; j-- {
+				c.During = append(c.During, 1+rng.Intn(4))
+			}
+			cs.kind("queued-behind-busy-worker")
+		}
+		if !c.Local && !c.QWait && rng.Intn(8) == 0 {
 			// a full validation queue: the first validator is inline and accepts (the worker parks in it for another message)
 			c.QFull = 1 + rng.Intn(2)
 			c.Blocker = false
@@ -433,6 +498,6 @@ func TestVF_C04(t *testing.T) {
 	}
 	os.Remove(filepath.Join(vfOutDir(t), "c04_last_input.json"))
 	cs.flush("every verdict vector (Accept/Reject/Ignore/out-of-range: 3, 99, 2^30, -1, -2, -2^31) over up to N validators x inline/async placement (last = topic validator), remote and local origin; " +
-		"plus random configurations with up to 4 validators, random completion orders of the asynchronous ones, exhausted global / per-validator throttles (a parked blocker message), a full validation queue (the only worker parked, the queue filled), duplicate copies from other peers during and after validation. " +
+		"plus random configurations with up to 4 validators, random completion orders of the asynchronous ones, exhausted global / per-validator throttles (a parked blocker message), a full validation queue (the only worker parked, the queue filled), a message waiting in the queue while a message of another topic (with its own validator) is pushed, duplicate copies from other peers during and after validation. " +
 		"non-trivial = some validator does not accept; distinct = hash of configuration+observations")
 }
